@@ -5,6 +5,9 @@
 //!        a spec-built container and the textures packed into it (extents into the file);
 //!        `<n>` = `~` for malformed input (no claim about content)
 //!   <id> prefixes <kind> <file-hex> <n> {…}*      every strict prefix of the same file
+//!   <id> fsread <kind> <loc 0|1> <file-hex> <n> {…}*   the same file written into a layer directory and read through
+//!        `LayeredFilesystem::read_{ctpk,bch,cgfx}_textures` (map keyed by name) / `read_tpl_textures`;
+//!        implementation line: `ok <n> {<key-hex> <name-hex> <w> <h> <pixels-hex>}*` sorted by key (TPL: by index)
 //! Implementation lines:
 //!   <id> <dev|release> ok <n> {<name-hex> <w> <h> <pixels-hex>}*  |  … err <Class>  |  … panic
 //!   <id> <dev|release> <a>-<b>:<class>,…      run-length list over the cut positions; class =
@@ -115,6 +118,20 @@ impl Placer {
     }
 }
 
+/// Bytes of every position the format does not define (gaps, unused header / flag / size fields):
+/// random junk, or the special words 0, 0xFFFFFFFF, 0x80000000 repeated.
+fn fill(total: usize, rng: &mut Rng, shuffle: bool) -> Vec<u8> {
+    if !shuffle {
+        return vec![0u8; total];
+    }
+    match rng.below(8) {
+        0 => vec![0u8; total],
+        1 => vec![0xFFu8; total],
+        2 => (0..total).map(|i| if i % 4 == 3 { 0x80 } else { 0 }).collect(),
+        _ => rng.bytes(total),
+    }
+}
+
 fn put(file: &mut [u8], off: usize, bytes: &[u8]) {
     file[off..off + bytes.len()].copy_from_slice(bytes);
 }
@@ -154,7 +171,7 @@ pub fn build_ctpk(texs: &[Tex], rng: &mut Rng, shuffle: bool) -> Built {
     let pay_c: Vec<usize> = texs.iter().map(|t| pl.add(t.payload.len(), &[])).collect();
     let end = pl.place(0x20 + 0x20 * n, rng, shuffle);
     let total = end + if shuffle { rng.below(6) as usize } else { 0 };
-    let mut file = if shuffle { rng.bytes(total) } else { vec![0u8; total] };
+    let mut file = fill(total, rng, shuffle);
     let base = base_below(pay_c.iter().map(|&c| pl.pos(c)).min(), total, rng, shuffle);
     put(&mut file, 0, b"CTPK");
     put16(&mut file, 4, 1);
@@ -190,7 +207,7 @@ pub fn build_bch(texs: &[Tex], compat: u8, rng: &mut Rng, shuffle: bool) -> Buil
     let pay_c: Vec<usize> = texs.iter().map(|t| pl.add(t.payload.len(), &[])).collect();
     let end = pl.place(hlen, rng, shuffle);
     let total = end + if shuffle { rng.below(6) as usize } else { 0 };
-    let mut file = if shuffle { rng.bytes(total) } else { vec![0u8; total] };
+    let mut file = fill(total, rng, shuffle);
     let contents = pl.pos(ct);
     let strings = base_below(name_c.iter().map(|&c| pl.pos(c)).min(), total, rng, shuffle);
     let commands = base_below(cmd.iter().map(|&c| pl.pos(c)).min(), total, rng, shuffle);
@@ -231,7 +248,7 @@ pub fn build_cgfx(texs: &[Tex], rng: &mut Rng, shuffle: bool) -> Built {
     let pay_c: Vec<usize> = (0..n).map(|i| pl.add(texs[i].payload.len(), &[txob[i]])).collect();
     let end = pl.place(0x9C, rng, shuffle);
     let total = end + if shuffle { rng.below(6) as usize } else { 0 };
-    let mut file = if shuffle { rng.bytes(total) } else { vec![0u8; total] };
+    let mut file = fill(total, rng, shuffle);
     put(&mut file, 0, b"CGFX");
     put(&mut file, 0x14, b"DATA");
     for j in 0..16 {
@@ -273,7 +290,7 @@ pub fn build_tpl(texs: &[Tex], rng: &mut Rng, shuffle: bool) -> Built {
     let pal_c: Vec<usize> = texs.iter().map(|t| pl.add(t.palette.len(), &[])).collect();
     let end = pl.place(12, rng, shuffle);
     let total = end + if shuffle { rng.below(6) as usize } else { 0 };
-    let mut file = if shuffle { rng.bytes(total) } else { vec![0u8; total] };
+    let mut file = fill(total, rng, shuffle);
     putb32(&mut file, 0, 0x0020AF30);
     putb32(&mut file, 4, n as u32);
     putb32(&mut file, 8, pl.pos(table) as u32);
@@ -317,7 +334,37 @@ pub fn bits_per_pixel(fmt: u32) -> Option<usize> {
 
 const ASCII_NAMES: [&str; 8] = ["a", "tex0", "Face_01.png", "body diffuse", "x.y.z", "#%~!", "", "A"];
 const SJIS_NAMES: [&str; 6] = ["あいう", "テクスチャ", "ｱｲｳ", "かおtex", "ア", "ﾃｸｽﾁｬ01"];
-const UTF8_NAMES: [&str; 10] = ["é", "日本語", "\u{FEFF}abc", "😀face", "ñandú", "\u{FFFE}x", "\u{FEFF}", "tex_ü_β", "\u{10FFFF}", "中"];
+const UTF8_NAMES: [&str; 14] = [
+    "é", "日本語", "\u{FEFF}abc", "😀face", "ñandú", "\u{FFFE}x", "\u{FEFF}", "tex_ü_β", "\u{10FFFF}", "中",
+    // code points whose low byte looks like a special ASCII byte ('\n', '\\', NUL, 'n')
+    "上《＊Ċ", "乜a乜", "一Ā", "乮\u{7F}\u{1}",
+];
+
+/// A name of exactly `len` encoded bytes (Shift-JIS sub-alphabet or UTF-8), mixing single- and
+/// multi-byte characters so that a multi-byte character straddles every boundary for some length.
+pub fn name_of_len(rng: &mut Rng, len: usize, sjis: bool) -> String {
+    let mut s = String::new();
+    let mut n = 0;
+    let mut lead = rng.below(3) as usize;
+    while n < len {
+        let left = len - n;
+        let (c, sz) = if sjis {
+            if left >= 2 && lead % 3 != 0 { (char::from_u32(0x3042 + rng.below(0x50) as u32).unwrap(), 2) } else if lead % 5 == 1 { (char::from_u32(0xFF71 + rng.below(0x2C) as u32).unwrap(), 1) } else { (char::from_u32(0x41 + rng.below(26) as u32).unwrap(), 1) }
+        } else if left >= 4 && lead % 7 == 3 {
+            (char::from_u32(0x1F600 + rng.below(0x40) as u32).unwrap(), 4)
+        } else if left >= 3 && lead % 3 == 1 {
+            (char::from_u32(0x4E00 + rng.below(0x100) as u32).unwrap(), 3)
+        } else if left >= 2 && lead % 3 == 2 {
+            (char::from_u32(0xC0 + rng.below(0x100) as u32).unwrap(), 2)
+        } else {
+            (char::from_u32(0x61 + rng.below(26) as u32).unwrap(), 1)
+        };
+        s.push(c);
+        n += sz;
+        lead += 1;
+    }
+    s
+}
 
 pub fn gen_name(rng: &mut Rng, sjis: bool) -> String {
     match rng.below(10) {
@@ -547,6 +594,8 @@ pub fn gen(seed: u64, tier: &str) -> Vec<String> {
                 let b = build(kind, &texs, compat, &mut rng, shuffle);
                 let f = tex_fields(&texs, &b);
                 next(&mut lines, format!("read {} {} {}", kind, hex(&b.file), f));
+                // the secondary entry point: the same file through the layered filesystem (both localized flags)
+                next(&mut lines, format!("fsread {} {} {} {}", kind, (round + shuffle as usize) % 2, hex(&b.file), f));
                 // every truncation point (quick: files up to 3 KiB; thorough: up to 12 KiB)
                 if b.file.len() <= if thorough { 12288 } else { 3072 } {
                     next(&mut lines, format!("prefixes {} {} {}", kind, hex(&b.file), f));
@@ -664,6 +713,79 @@ pub fn gen(seed: u64, tier: &str) -> Vec<String> {
                     }
                 };
                 seq(&mut lines, vec![first, good.clone(), good]);
+            }
+        }
+    }
+    // 1d. filesystem entry points: duplicate names (the map keeps one of them: no claim), empty and
+    //     non-ASCII names as keys, a malformed file, a second read of another container on the same thread
+    for kind in ["ctpk", "bch", "cgfx"] {
+        let mut texs: Vec<Tex> = (0..3).map(|_| gen_tex_3ds(&mut rng, kind == "ctpk", false)).collect();
+        texs[2].name = texs[0].name.clone();
+        let b = build(kind, &texs, 0, &mut rng, true);
+        next(&mut lines, format!("fsread {} 0 {} {}", kind, hex(&b.file), tex_fields(&texs, &b)));
+        let names: [&str; 3] = if kind == "ctpk" { ["", "ア", "tex 1"] } else { ["", "\u{FEFF}x", "日本/語"] };
+        let texs: Vec<Tex> = names.iter().map(|n| { let mut t = gen_tex_3ds(&mut rng, kind == "ctpk", false); t.name = n.to_string(); t }).collect();
+        let b = build(kind, &texs, 0x21, &mut rng, true);
+        let good = format!("fsread {} 1 {} {}", kind, hex(&b.file), tex_fields(&texs, &b));
+        let mut bad = b.file.clone();
+        bad[0] ^= 0x55;
+        let bad_line = format!("fsread {} 0 {} ~", kind, hex(&bad));
+        let i0 = id.get();
+        lines.push(format!("c20.{:06} {}", i0, bad_line));
+        lines.push(format!("c20.{:06} {}", i0, good));
+        lines.push(format!("c20.{:06} {}", i0, good.replace(" 1 ", " 0 ").replacen("fsread", "fsread", 1)));
+        id.set(i0 + 1);
+    }
+    // 1e. exact counts and lengths: every name length 0..=130 encoded bytes (quick: 6 names per file,
+    //     one file per kind and length group), the thresholds 255 / 256 / 257 (thorough: 65535 / 65536),
+    //     texture counts around the powers of two
+    {
+        let tiny = |rng: &mut Rng, name: String| Tex { name, w: 8, h: 8, fmt: *rng.pick(&[7u32, 8, 12]), payload: Vec::new(), palette: Vec::new() };
+        let finish = |rng: &mut Rng, mut t: Tex| {
+            t.payload = rng.bytes(bits_per_pixel(t.fmt).unwrap() * 64 / 8);
+            t
+        };
+        for (ki, kind) in ["ctpk", "bch", "cgfx"].iter().enumerate() {
+            let mut lens: Vec<usize> = (0..=130).collect();
+            lens.extend([255usize, 256, 257]);
+            if thorough {
+                lens.extend([65535usize, 65536]);
+            }
+            for (gi, group) in lens.chunks(6).enumerate() {
+                // quick: each kind takes every third group in full and the boundary lengths always
+                if !thorough && gi % 3 != ki && !group.iter().any(|l| [0usize, 127, 128, 129, 255, 256, 257].contains(l)) {
+                    continue;
+                }
+                let texs: Vec<Tex> = group.iter().map(|&l| { let n = name_of_len(&mut rng, l, *kind == "ctpk"); let t = tiny(&mut rng, n); finish(&mut rng, t) }).collect();
+                let b = build(kind, &texs, 0, &mut rng, true);
+                let f = tex_fields(&texs, &b);
+                next(&mut lines, format!("read {} {} {}", kind, hex(&b.file), f));
+                if gi % 4 == 0 {
+                    next(&mut lines, format!("fsread {} {} {} {}", kind, gi % 2, hex(&b.file), f));
+                }
+            }
+        }
+        let counts: Vec<usize> = if thorough { vec![7, 8, 9, 15, 16, 17, 31, 32, 33, 63, 64, 65, 127, 128, 129] } else { vec![7, 8, 9, 16, 17, 33, 65] };
+        for (ci, &n) in counts.iter().enumerate() {
+            for (ki, kind) in KINDS.iter().enumerate() {
+                if !thorough && (ci + ki) % 4 != 0 && n > 9 {
+                    continue;
+                }
+                let texs: Vec<Tex> = (0..n)
+                    .map(|i| if *kind == "tpl" {
+                        let (w, h) = (1 + (i as u32 % 9), 1 + (i as u32 % 5));
+                        Tex { name: String::new(), w, h, fmt: 9, payload: ci8_plane(&mut rng, w, h, 2), palette: rng.bytes(4) }
+                    } else {
+                        let t = tiny(&mut rng, format!("t{}", i));
+                        finish(&mut rng, t)
+                    })
+                    .collect();
+                let b = build(kind, &texs, 0x21, &mut rng, true);
+                let f = tex_fields(&texs, &b);
+                next(&mut lines, format!("read {} {} {}", kind, hex(&b.file), f));
+                if n <= 17 {
+                    next(&mut lines, format!("fsread {} {} {} {}", kind, n % 2, hex(&b.file), f));
+                }
             }
         }
     }
@@ -932,6 +1054,70 @@ pub fn run_line(_st: &mut super::State, line: &str) -> String {
             let text: Vec<String> = runs.iter().map(|r| format!("{}-{}:{}", r.0, r.1, r.2)).collect();
             format!("{} {} {}", id, PROFILE, if text.is_empty() { "-".to_string() } else { text.join(",") })
         }
+        "fsread" => {
+            let kind = f[2];
+            let localized = f[3] == "1";
+            let file = unhex(f[4]);
+            format!("{} {} {}", id, PROFILE, fs_outcome(kind, localized, &file))
+        }
         _ => format!("{} {} bad-case", id, PROFILE),
     }
+}
+
+/// Writes `file` into a fresh layer directory under `work/` and reads it back through the
+/// `LayeredFilesystem` texture entry points.
+fn fs_outcome(kind: &str, localized: bool, file: &[u8]) -> String {
+    let dir = std::path::PathBuf::from(format!("work/texc-fs-{}", std::process::id()));
+    let _ = std::fs::remove_dir_all(&dir);
+    if std::fs::create_dir_all(dir.join("d").join("E")).is_err() {
+        return "fs-setup-failed".to_string();
+    }
+    let out = (|| {
+        let layer = dir.to_string_lossy().to_string();
+        let fs = match LayeredFilesystem::new(vec![layer], Language::EnglishNA, Game::FE13) {
+            Ok(fs) => fs,
+            Err(_) => return "fs-setup-failed".to_string(),
+        };
+        if fs.write("d/tex.bin", file, localized).is_err() {
+            return "fs-setup-failed".to_string();
+        }
+        let class = |e: &LayeredFilesystemError| match e {
+            LayeredFilesystemError::TextureParseError(e) => parse_err_class(e),
+            _ => "Other",
+        };
+        if kind == "tpl" {
+            match no_panic(|| fs.read_tpl_textures("d/tex.bin", localized)) {
+                Err(_) => "panic".to_string(),
+                Ok(Err(e)) => format!("err {}", class(&e)),
+                Ok(Ok(ts)) => {
+                    let mut s = format!("ok {}", ts.len());
+                    for (i, t) in ts.iter().enumerate() {
+                        s.push_str(&format!(" {} {} {} {} {}", i, hexs(&t.filename), t.width, t.height, hex(&t.pixel_data)));
+                    }
+                    s
+                }
+            }
+        } else {
+            let r = no_panic(|| match kind {
+                "ctpk" => fs.read_ctpk_textures("d/tex.bin", localized),
+                "bch" => fs.read_bch_textures("d/tex.bin", localized),
+                _ => fs.read_cgfx_textures("d/tex.bin", localized),
+            });
+            match r {
+                Err(_) => "panic".to_string(),
+                Ok(Err(e)) => format!("err {}", class(&e)),
+                Ok(Ok(map)) => {
+                    let mut items: Vec<(&String, &Texture)> = map.iter().collect();
+                    items.sort_by(|a, b| a.0.as_bytes().cmp(b.0.as_bytes()));
+                    let mut s = format!("ok {}", items.len());
+                    for (k, t) in items {
+                        s.push_str(&format!(" {} {} {} {} {}", hexs(k), hexs(&t.filename), t.width, t.height, hex(&t.pixel_data)));
+                    }
+                    s
+                }
+            }
+        }
+    })();
+    let _ = std::fs::remove_dir_all(&dir);
+    out
 }
